@@ -3,7 +3,7 @@ The search drives anonymize only (what the property states); the undo direction 
 from . import ipgen, ipref
 from .ipcommon import MODEL_DEPS, TRUSTED_BASE, ASSUMPTIONS  # noqa
 
-COQ_DEPS = ["lib/PPCore.v", "lib/PPHost.v", "lib/Memo.v", "lib/MemoProofs.v", "lib/Pinned.v", "lib/Str.v", "lib/Mask.v", "lib/Md5.v", "model/IpModel.v", "gen/G_ip_consts.v"]
+COQ_DEPS = ["lib/PPCore.v", "lib/PPHost.v", "lib/Memo.v", "lib/MemoProofs.v", "lib/Pinned.v", "lib/Str.v", "lib/Mask.v", "lib/Md5.v", "model/IpModel.v", "gen/G_ip_consts.v", "lib/PyLib.v", "gen/G_fn_ip.v", "refine/RefIpCommon.v", "refine/RefInit.v"]
 RULE = ("IPv4: every B in 0..32 with default, empty, nested, overlapping and long (> 32-B) preserved lists, first/last address of every prefix and outside neighbours, "
         "random addresses; IPv6: B in 0..128; oracle = network membership and suffix equality computed independently; pairs differing only in host bits; "
         "non-trivial = an address inside some preserved prefix whose image differs from it")
